@@ -198,7 +198,9 @@ func (tree *HTree) dump(path string) {
 	}
 	f.Close()
 	f = nil
+	verifPoint("tree.tmp")
 	os.Rename(tmp, path)
+	verifPoint("tree.renamed")
 	logger.Infof("htree dumped %s, min leaf %d, max leaf %d", path, minleaf, maxleaf)
 }
 
